@@ -1,10 +1,16 @@
 #!/bin/bash
-# tools/seeded_all.sh — run the target check of every seeded change (applies each patch to /repo and undoes it); lists misses
+# tools/seeded_all.sh [ids...] — run the target check of every seeded change (applies each patch to the repository under test and undoes
+# it); lists misses. Through `vp run --with-repo -- tools/seeded_all.sh` it works on a snapshot of /verif and /repo, leaving /repo free.
 cd "$(dirname "$0")/.."
-for d in seeded/*/; do
-  id=$(basename $d)
-  prop=$(python3 -c "import json;print(json.load(open('$d/meta.json'))['property'])")
+if [ -n "$VP_RUN_REPO" ]; then
+  sed -i "s#path = \"/repo\"#path = \"$VP_RUN_REPO\"#" harness/Cargo.toml
+  export VERIF_REPO="$VP_RUN_REPO"
+  ./setup.sh > sweep_setup.log 2>&1 || { echo "setup failed"; tail -20 sweep_setup.log; exit 1; }
+fi
+ids="$@"
+if [ -z "$ids" ]; then ids=$(ls seeded); fi
+for id in $ids; do
+  prop=$(python3 -c "import json;print(json.load(open('seeded/$id/meta.json'))['property'])")
   echo "$id: $(tools/seeded.py run $id $prop 2>&1 | cut -c1-160 | tr '\n' ' ')"
 done
-git -C /repo status --short | grep -v Cargo.lock | head -3
 echo seeded_all done
